@@ -34,10 +34,13 @@ enum End {
     DropPermit,
     /// a failing statement inside the transaction, then early return (`?`) dropping the permit
     ErrThenDrop,
+    /// a write of this transaction is still in flight (issued by a helper that shares the
+    /// transaction) when the permit is dropped; the write is then driven to completion
+    DropDuringWrite,
     /// poll `commit` once and drop the future if it is Pending
     CancelCommit,
 }
-const ENDS: [End; 5] = [End::Commit, End::Rollback, End::DropPermit, End::ErrThenDrop, End::CancelCommit];
+const ENDS: [End; 6] = [End::Commit, End::Rollback, End::DropPermit, End::ErrThenDrop, End::DropDuringWrite, End::CancelCommit];
 
 #[derive(Clone, Copy, Debug, PartialEq, Eq, Hash)]
 struct Script {
@@ -160,6 +163,19 @@ async fn writer(
                             drop(p);
                             if r.is_err() { StepResult::Ok } else { StepResult::Failed("failing statement succeeded".into()) }
                         }
+                        End::DropDuringWrite => {
+                            let a = key(id as u8 + 10).verifying_key();
+                            let mut fut = Box::pin(<SqliteStore as TopicStore<[u8; 32], VerifyingKey, u64>>::associate(&store, &TOPIC, &a, &99u64));
+                            match futures_util::poll!(fut.as_mut()) {
+                                std::task::Poll::Ready(_) => drop(p),
+                                std::task::Poll::Pending => {
+                                    // the query holds the transaction; the permit goes away now
+                                    drop(p);
+                                    let _ = fut.await;
+                                }
+                            }
+                            StepResult::Ok
+                        }
                         End::CancelCommit => {
                             let mut fut = Box::pin(store.commit(p));
                             match futures_util::poll!(fut.as_mut()) {
@@ -208,7 +224,7 @@ async fn execute(ch: &Chooser, k: usize, max_writes: usize, path: &str, max_conn
     // With several pooled connections the fate of a cancelled commit cannot be awaited (its COMMIT
     // sits in the queue of a connection nobody owns any more), so that end kind is only explored
     // with a single connection, where the settle transaction queues behind it.
-    let ends: &[End] = if max_conn == 1 { &ENDS } else { &ENDS[..4] };
+    let ends: &[End] = if max_conn == 1 { &ENDS } else { &ENDS[..5] };
     let mut obs = Obs::default();
     // scripts: enumerated exhaustively (free choices)
     for _ in 0..k {
@@ -416,7 +432,7 @@ pub fn run(mut rep: Report) -> i32 {
     // (writers, max writes per transaction, deviation bound)
     let configs: Vec<(usize, usize, usize)> = if thorough { vec![(2, 2, usize::MAX), (3, 1, 2)] } else { vec![(2, 1, 1)] };
     rep.rule = format!(
-        "k writers on one file-backed SqliteStore, configurations (k, max writes, max switches away from a runnable writer) = {configs:?}; every script (first begin cancelled at its first Pending or not) x (0..=max writes: topic association + cursor overwrite) x (end in {{commit, rollback, drop permit, failing statement then drop, commit future dropped at first Pending (single-connection pool only)}}) for every writer, pools of 1 and 4 connections; every grant order of the writers' store calls within the deviation bound; oracle after settle: committed data read through a second store = exactly the committed scripts in commit order (a cancelled commit may count or not, atomically), every begin returns, no panic; non-trivial = execution with at least one aborted and one committed transaction and at least one deviation"
+        "k writers on one file-backed SqliteStore, configurations (k, max writes, max switches away from a runnable writer) = {configs:?}; every script (first begin cancelled at its first Pending or not) x (0..=max writes: topic association + cursor overwrite) x (end in {{commit, rollback, drop permit, failing statement then drop, permit dropped while a write of the same transaction is in flight, commit future dropped at first Pending (single-connection pool only)}}) for every writer, pools of 1 and 4 connections; every grant order of the writers' store calls within the deviation bound; oracle after settle: committed data read through a second store = exactly the committed scripts in commit order (a cancelled commit may count or not, atomically), every begin returns, no panic; non-trivial = execution with at least one aborted and one committed transaction and at least one deviation"
     );
     let dir = if std::path::Path::new("/dev/shm").is_dir() { "/dev/shm".to_string() } else { std::env::temp_dir().display().to_string() };
     let pid = std::process::id();
